@@ -212,7 +212,9 @@ def run(ctx):
                     if not isinstance(got, str) or text not in got:
                         res.violation("extended-status-text",
                                       f"get_extended_status(status={st:#x}, ext={ext:#x}, {words} words) -> {got!r}", None)
-    res.sample({"table": "Services", "lookup": "Services['ReAd_TaG']", "result": repr(Services["ReAd_TaG"])})
-    res.sample({"table": "DataTypes", "lookup": "DataTypes[0xC4]", "result": repr(DataTypes[0xC4])})
-    res.sample({"status": 0x77, "text": get_service_status(0x77)})
+    for what, fn in (("Services['ReAd_TaG']", lambda: Services["ReAd_TaG"]), ("DataTypes[0xC4]", lambda: DataTypes[0xC4]), ("get_service_status(0x77)", lambda: get_service_status(0x77))):
+        try:
+            res.sample({"lookup": what, "result": repr(fn())})
+        except Exception as e:  # noqa
+            res.sample({"lookup": what, "raised": repr(e)})
     return res
